@@ -32,11 +32,14 @@ def gen(rng, n):
         args = m['args']
         if blocked and rng.random() < 0.5:
             # entries of every kind on the volume where nothing can be trashed: each must be reported as a failure, with or without -f
-            for k, (kind, node) in enumerate([('lx', ['l', blocked + '/dangle', 'no/where']), ('f', ['f', blocked + '/plain', 'p']),
-                                              ('ld', ['l', blocked + '/tolink', '/canary'])]):
-                if rng.random() < 0.6:
-                    s['tree'].append(node)
-                    args.append({'arg': node[1], 'kind': kind, 'entry': node[1], 'expect': 'trash'})
+            fam = [('lx', ['l', blocked + '/dangle', 'no/where']), ('f', ['f', blocked + '/plain', 'p']), ('ld', ['l', blocked + '/tolink', '/canary'])]
+            # often exactly ONE of them, so that it is the only failing argument of the run and the exit status hangs on it alone
+            chosen = [rng.choice(fam)] if rng.random() < 0.6 else [x for x in fam if rng.random() < 0.6]
+            if len(chosen) == 1 and rng.random() < 0.7:
+                args[:] = [a for a in args if a['expect'] == 'trash' and not (a['entry'] or '').startswith(blocked)][:2]
+            for kind, node in chosen:
+                s['tree'].append(node)
+                args.append({'arg': node[1], 'kind': kind, 'entry': node[1], 'expect': 'trash'})
             av0 = s['steps'][0]['argv']
             if s['steps'][0].get('stdin') is not None:
                 s['steps'][0]['stdin'] += ''.join(rng.choice(['y\n', 'n\n', 'Y\n', '\n']) for _ in range(4))     # one reply per argument
